@@ -75,13 +75,16 @@ class Cfg:
         return Cfg(str(c.prefix), tuple(map(str, c.patterns)), "".join(c.alphabet), tuple(c.stats), pack, db, **kw)
 
 
-def build_searcher(cfg: Cfg):
+def build_searcher(cfg: Cfg, db_hook=None):
     from comb_spec_searcher import CombinatorialSpecificationSearcher
 
+    db = make_db(cfg.db)
+    if db_hook is not None:
+        db_hook(db)
     return CombinatorialSpecificationSearcher(
         cfg.start(),
         dw.make_pack(cfg.pack),
-        ruledb=make_db(cfg.db),
+        ruledb=db,
         expand_verified=cfg.expand_verified,
         debug=cfg.debug,
     )
@@ -126,6 +129,7 @@ def execute(
     timeout: float = 120.0,
     searcher=None,
     max_expansion_time: Optional[float] = 1.0e6,
+    db_hook=None,
 ) -> Execution:
     """One run of the real auto_search under the virtual clock and decision source."""
     ex = Execution()
@@ -143,7 +147,7 @@ def execute(
         try:
             with deadline(timeout):
                 if searcher is None:
-                    searcher = build_searcher(cfg)
+                    searcher = build_searcher(cfg, db_hook)
                 ex.searcher = searcher
                 if on_searcher is not None:
                     on_searcher(searcher)
@@ -154,6 +158,8 @@ def execute(
                 ex.outcome = "spec"
         except Prune:
             ex.outcome = "pruned"
+        except HarnessError:
+            raise
         except Timeout as e:
             ex.outcome = "exception"
             ex.exc = e
